@@ -148,6 +148,11 @@ def check_sorts(ctx, rep, funcs, rule=RULE):
                                     rep.violates(rule, f, s, 'component {} of the key {} is a {} where the mapping {} is keyed by a {}'.format(i + 1, u(s.slice), sk, u(s.value), sw))
                                 else:
                                     rep.holds(rule, f, s, 'key component {} has the sort {}'.format(i + 1, sk), nontrivial=False)
+            elif isinstance(s, ast.Call) and isinstance(s.func, ast.Attribute) and s.func.attr in ('update', 'extend', 'union', 'intersection', 'difference', 'issubset', 'issuperset') and len(s.args) == 1 \
+                    and sort_of(ty(s.args[0])):
+                # a NAME handed to an operation that iterates its argument: the name is taken apart into characters
+                n += 1
+                rep.violates(rule, f, s, '`{}` hands the {} {} to {}(), which iterates it: the name is split into its characters (a symbol `10` becomes `1` and `0`); add() was meant'.format(u(s), sort_of(ty(s.args[0])), u(s.args[0]), s.func.attr))
             elif isinstance(s, ast.Call):
                 r = ctx.resolve_call(f, s)
                 g = None
